@@ -28,6 +28,7 @@
 #define G_ERR g.err, g.faults, g.first_errno, g.last_fault, g.os_calls
 #define G_RD g.rd_calls, g.rd_fd, g.rd_buf, g.rd_n, g.rd_ret, g.rd_errno, g.may_block
 #define G_WR g.wr_calls, g.wr_fd, g.wr_buf, g.wr_n, g.wr_ret, g.wr_errno, g.may_block, g.in_fd, g.stream_pos
+#define G_POLL g.now, g.may_block, g.poll_calls, g.poll_timeout, g.poll_ret, g.poll_at, g.poll_fds, g.poll_ready, g.poll_nfds, g.poll_fdv, g.poll_evv, g.poll_rev, g.plan_pos
 /* what every contract that may fail a call promises about the error ghost */
 #define G_ERR_SANE (g.err >= 0 && g.err < 134 && g.first_errno >= 0 && g.first_errno < 134 && g.last_fault >= 0 && g.last_fault < 134 && g.faults >= OLD(g.faults) && g.faults <= 1000 && g.os_calls >= OLD(g.os_calls) && IMPLIES(OLD(g.faults) > 0, g.first_errno == OLD(g.first_errno)) && IMPLIES(g.faults == OLD(g.faults), g.first_errno == OLD(g.first_errno)))
 /* descriptors that were open keep the object behind them (index masked so that
